@@ -25,11 +25,11 @@ func Run(ctx *common.Ctx) int {
 		w := &wf.All[wi]
 		for _, sc := range fast.Catalogue(w) {
 			for _, W := range []int{1, 2, 3} {
-				for _, pol := range []int{0, 1, 2} {
+				for _, pol := range []int{0, 1, 2, 3} {
 					bound, shards := 1, 1
 					if quick {
 						// quick: every scenario at bound 1 under the ascending-id policy; the other two policies for W>=2 on the all-pass scenario
-						if pol != 0 && (W == 1 || sc.Name != "all-pass") {
+						if pol != 0 && (W == 1 || !(sc.Name == "all-pass" || (pol == 3 && sc.Name == "item0-at-threshold" && w.Name != "Factory"))) {
 							continue
 						}
 						if w.Name == "Factory" && W == 3 && pol != 0 {
@@ -68,7 +68,10 @@ func Run(ctx *common.Ctx) int {
 			for _, idx := range []int{0, 1, w.S / 2, w.S - 1} {
 				specs = append(specs, fast.SrcSpec{Kind: "short", Index: idx, Index2: -1, Size: "half"})
 			}
-			specs = append(specs, fast.SrcSpec{Kind: "uniform", Index2: -1, Size: "half"}, fast.SrcSpec{Kind: "uniform", Index2: -1, Size: "997"})
+			specs = append(specs, fast.SrcSpec{Kind: "uniform", Index2: -1, Size: "half"})
+			if w.Name == "Period" {
+				specs = append(specs, fast.SrcSpec{Kind: "uniform", Index2: -1, Size: "997"})
+			}
 			for _, sp := range specs {
 				fast.MkTask("C08", "c08", w, "item0-at-threshold", sp, W, 1, 0, 1, &tasks)
 			}
